@@ -1,5 +1,5 @@
 (* C10: the check's boolean predicates imply the property's relations on the observed values. *)
-From Verif Require Import Lib.Base Model.C10_ExecConfig Proofs.C10 Check.C10.
+From Verif Require Import Lib.Base Model.C10_ExecConfig Model.C10_Service Proofs.C10 Proofs.C10_Service Check.C10.
 From Coq Require Import Permutation.
 Local Open Scope list_scope.
 
@@ -81,8 +81,14 @@ Definition case_ok_with (spec : config -> validator -> N -> N -> outcome) (c : c
       (exists j cfg', c_marshalled c = Some j /\ unmarshal j = Some cfg' /\ config_eqb cfg cfg' = true)
   end.
 
+(* ... and about its history on one service instance: every lookup got what the precedence gives
+   for its own arguments under the last accepted document *)
+Definition hist_ok_with (spec : config -> validator -> N -> N -> outcome) (c : case) : Prop :=
+  Forall2 outcome_equiv (svc_spec_run spec [] None (c_ops c) (c_fbfee c) (c_fbgas c)) (c_hist c).
+
 Definition case_ok (c : case) : Prop :=
-  if c_v1_per_value c then case_ok_with resolve_doc c else case_ok_with resolve c.
+  if c_v1_per_value c then case_ok_with resolve_doc c /\ hist_ok_with resolve_doc c
+  else case_ok_with resolve c /\ hist_ok_with resolve c.
 
 Lemma P_with_sound : forall spec c, P_with spec c = true -> case_ok_with spec c.
 Proof.
@@ -99,7 +105,9 @@ Qed.
 
 Lemma P_b_sound : forall c, P_b c = true -> case_ok c.
 Proof.
-  intros c H. unfold P_b in H. unfold case_ok. destruct (c_v1_per_value c); apply P_with_sound, H.
+  intros c H. unfold P_b in H. unfold case_ok.
+  destruct (c_v1_per_value c); apply andb_true_iff in H as [H1 H2];
+    (split; [apply P_with_sound, H1 | apply outcomes_eqb_sound, H2]).
 Qed.
 
 (* the well-formedness test of [agree] is the hypothesis of the theorems *)
@@ -116,8 +124,30 @@ Qed.
 Lemma agree_wf : forall c cfg, agree c = true -> unmarshal (c_doc c) = Some cfg ->
   wf_config cfg /\ forall v, lookup cfg v (c_fbfee c) (c_fbgas c) = resolve cfg v (c_fbfee c) (c_fbgas c).
 Proof.
-  intros c cfg H E. unfold agree in H. rewrite E in H.
+  intros c cfg H E. unfold agree in H. apply andb_true_iff in H as [H _]. unfold agree_doc in H. rewrite E in H.
   apply andb_true_iff in H as [H _]. apply andb_true_iff in H as [H _].
   apply andb_true_iff in H as [_ H]. apply wf_config_b_sound in H.
   split; [exact H|]. intro v. apply lookup_is_resolve, H.
+Qed.
+
+(* the same for the history: where [agree] holds, every document a refresh accepted has key-unique
+   relay maps, so C10_service_history applies to the history of the case *)
+Lemma op_wf_b_sound : forall o, op_wf_b o = true -> op_wf o.
+Proof.
+  intros [a v|[j|]] H; cbn in *; try exact I.
+  intros cfg E. rewrite E in H. apply wf_config_b_sound, H.
+Qed.
+
+Lemma agree_hist_wf : forall c, agree c = true ->
+  Forall op_wf (c_ops c) /\
+  Forall2 outcome_equiv
+    (svc_spec_run resolve [] None (c_ops c) (c_fbfee c) (c_fbgas c)) (c_hist c).
+Proof.
+  intros c H. unfold agree in H. apply andb_true_iff in H as [_ H]. unfold hist_agree in H.
+  apply andb_true_iff in H as [H1 H2].
+  assert (Hwf : Forall op_wf (c_ops c)).
+  { apply Forall_forall. intros o Ho. rewrite forallb_forall in H2. apply op_wf_b_sound, H2, Ho. }
+  split; [exact Hwf|].
+  rewrite <- (svc_run_is_spec (c_ops c) [] None (c_fbfee c) (c_fbgas c) I Hwf).
+  apply outcomes_eqb_sound, H1.
 Qed.
